@@ -146,8 +146,12 @@ def gen_case(rng, thorough, force=None):
         s = {"kind": kind, "axis": ax, "direction": dr, "profile": rng.choice(["cw", "pulse"]),
              "amp": rng.uniform(0.5, 2.0)}
         # keep plane sources out of the PML cells and one cell away from the faces
-        lo_pad = [thick[FACES[2 * a]] if faces[FACES[2 * a]] == "pml" else 0 for a in range(3)]
-        hi_pad = [thick[FACES[2 * a + 1]] if faces[FACES[2 * a + 1]] == "pml" else 0 for a in range(3)]
+        # … and dipoles off the PEC/PMC wall layers (a dipole whose component is zeroed by the wall radiates nothing)
+        wallpad = 1 if kind in ("dipole_e", "dipole_m") else 0
+        lo_pad = [thick[FACES[2 * a]] if faces[FACES[2 * a]] == "pml" else (wallpad if faces[FACES[2 * a]] in ("pec", "pmc") else 0)
+                  for a in range(3)]
+        hi_pad = [thick[FACES[2 * a + 1]] if faces[FACES[2 * a + 1]] == "pml" else
+                  (wallpad if faces[FACES[2 * a + 1]] in ("pec", "pmc") else 0) for a in range(3)]
         s["pos"] = [rng.randint(lo_pad[a], shape[a] - 1 - hi_pad[a]) for a in range(3)]
         if kind in ("uniform", "gauss"):
             th = rng.uniform(0.2, 1.3) * rng.choice([1.0, -1.0])
@@ -541,13 +545,13 @@ def counters(c):
 
 def one_scene(ctx, c0, sample=False):
     d, per, results = run_scene(c0)
-    ctx.case(sample=c0 if sample else None, nontrivial=(tuple(c0["shape"]), c0["seed"]), **counters(c0))
+    # a scene whose fields stay exactly zero (source swallowed by a wall) is counted, but as trivial
+    alive = bool(np.max(np.abs(results[0]["E"])) > 0 and np.max(np.abs(results[0]["H"])) > 0)
+    ctx.case(sample=c0 if sample else None, nontrivial=(tuple(c0["shape"]), c0["seed"]) if alive else None,
+             fields_nonzero=alive, **counters(c0))
     ctx.impl_property_evals += 1
     if d:
         ctx.violation(c0, d)
-    # sanity of the oracle itself: the run did something
-    if not (np.max(np.abs(results[0]["E"])) > 0 and np.max(np.abs(results[0]["H"])) > 0):
-        ctx.mismatch("oracle-nontrivial", c0, "fields stayed zero: the scene does not exercise the solver")
     if model_ok(c0):
         k_model(ctx, c0, per)
         ctx.dist.setdefault("model_compared", {"True": 0})["True"] += 1
